@@ -861,6 +861,229 @@ pub mod verif {
     }
 }
 
+/// Verification hook: the real `DB::prepare_sync` on a caller-supplied table state and changeset,
+/// without a store and without I/O.
+#[cfg(nomt_verif)]
+pub mod verif_sync {
+    use super::{
+        BucketIndex, HTOffsets, MetaMap, PageId, ProbeResult, ProbeSequence,
+        SharedMaybeBucketIndex, WalBlobBuilder, DB,
+    };
+    use crate::{
+        io::{PagePool, PAGE_SIZE},
+        page_cache::PageMut,
+        page_diff::PageDiff,
+        store::{BucketInfo, DirtyPage},
+    };
+    use parking_lot::{Mutex, RwLock};
+    use std::sync::{
+        atomic::{AtomicUsize, Ordering},
+        Arc,
+    };
+    use threadpool::ThreadPool;
+
+    /// What a dirty page knows about its bucket (`store::BucketInfo`; every `FreshOrDependent`
+    /// page gets a shared cell of its own).
+    #[derive(Debug, Clone, Copy, PartialEq, Eq)]
+    pub enum SimBucket {
+        Known(u64),
+        FreshWithNoDependents,
+        /// `FreshOrDependent` whose cell is still empty
+        DependentUnset,
+        /// `FreshOrDependent` whose cell an earlier overlay commit has filled
+        DependentSet(u64),
+    }
+
+    /// One `(PageId, DirtyPage)` of a changeset. `page`: the `PAGE_SIZE` bytes of the frozen page
+    /// (nodes, elided-children bitfield, label), `diff`: the two words of its `PageDiff`.
+    #[derive(Debug, Clone)]
+    pub struct SimDirty {
+        pub page_id: PageId,
+        pub page: Vec<u8>,
+        pub diff: [u64; 2],
+        pub bucket: SimBucket,
+    }
+
+    /// What `prepare_sync` returned: `Err(())` is `BucketExhaustion`; `ht` = the hash-table pages
+    /// in the order of the returned vector; `cache` = the cache updates (page id, bucket of an
+    /// inserted page / `None` for an eviction).
+    pub struct PrepareOut {
+        pub result: Result<(), ()>,
+        pub ht: Vec<(u64, Vec<u8>)>,
+        pub cache: Vec<([u8; 32], Option<u64>)>,
+    }
+
+    pub struct PrepareSim {
+        db: DB,
+        page_pool: PagePool,
+        builder: WalBlobBuilder,
+        cells: Vec<Option<SharedMaybeBucketIndex>>,
+    }
+
+    impl PrepareSim {
+        /// A bitbox `DB` of `num_pages` buckets as `DB::open` builds it, with an empty meta map; the
+        /// two file handles (never used by `prepare_sync`) are `/dev/null`. `wal_initial_size`: the
+        /// size of the WAL builder's mapping (`None`: the production size).
+        pub fn new(
+            num_pages: u32,
+            seed: [u8; 16],
+            wal_initial_size: Option<usize>,
+        ) -> anyhow::Result<Self> {
+            let page_pool = PagePool::new();
+            let meta_pages = (num_pages as usize + 4095) / 4096;
+            let meta_map = MetaMap::from_bytes(vec![0u8; meta_pages * 4096], num_pages as usize);
+            let capacity = meta_map.len();
+            let null = || std::fs::OpenOptions::new().read(true).write(true).open("/dev/null");
+            let shared = super::Shared {
+                page_pool: page_pool.clone(),
+                store: HTOffsets::verif_new(num_pages),
+                seed,
+                meta_map: Arc::new(RwLock::new(meta_map)),
+                wal_blob_builder: Arc::new(Mutex::new(WalBlobBuilder::verif_with_initial_size(
+                    PAGE_SIZE,
+                )?)),
+                occupied_buckets: AtomicUsize::new(0),
+                wal_fd: null()?,
+                ht_fd: null()?,
+                sync_tp: ThreadPool::with_name("bitbox-sync-verif".into(), 1),
+                capacity,
+            };
+            let builder = match wal_initial_size {
+                Some(size) => WalBlobBuilder::verif_with_initial_size(size)?,
+                None => WalBlobBuilder::new()?,
+            };
+            Ok(PrepareSim {
+                db: DB {
+                    shared: Arc::new(shared),
+                },
+                page_pool,
+                builder,
+                cells: Vec::new(),
+            })
+        }
+
+        /// Whether the `cfg!(debug_assertions)` block of `prepare_sync` (sort + duplicate check of
+        /// the returned pages) is compiled in.
+        pub fn debug_assertions() -> bool {
+            cfg!(debug_assertions)
+        }
+
+        /// Replace the in-memory table state: `meta` = the meta bytes (one per bucket, or the whole
+        /// `bitvec` including the padding of the last meta page), `occupied` = the counter.
+        pub fn set_state(&mut self, meta: &[u8], occupied: usize) {
+            let mut meta_map = self.db.shared.meta_map.write();
+            let buckets = meta_map.len();
+            let mut bytes = meta.to_vec();
+            bytes.resize(((buckets + 4095) / 4096) * 4096, 0);
+            *meta_map = MetaMap::from_bytes(bytes, buckets);
+            self.db
+                .shared
+                .occupied_buckets
+                .store(occupied, Ordering::Relaxed);
+        }
+
+        /// `DB::prepare_sync(sync_seqn, page_pool, changes, wal_blob_builder)`.
+        pub fn run(&mut self, sync_seqn: u32, changes: Vec<SimDirty>) -> PrepareOut {
+            self.cells.clear();
+            let mut dirty = Vec::with_capacity(changes.len());
+            for c in changes {
+                let mut fat = self.page_pool.alloc_fat_page();
+                fat[..].copy_from_slice(&c.page);
+                let (bucket, cell) = match c.bucket {
+                    SimBucket::Known(b) => (BucketInfo::Known(BucketIndex(b)), None),
+                    SimBucket::FreshWithNoDependents => (BucketInfo::FreshWithNoDependents, None),
+                    SimBucket::DependentUnset => {
+                        let cell = SharedMaybeBucketIndex::new(None);
+                        (BucketInfo::FreshOrDependent(cell.clone()), Some(cell))
+                    }
+                    SimBucket::DependentSet(b) => {
+                        let cell = SharedMaybeBucketIndex::new(Some(BucketIndex(b)));
+                        (BucketInfo::FreshOrDependent(cell.clone()), Some(cell))
+                    }
+                };
+                self.cells.push(cell);
+                dirty.push((
+                    c.page_id,
+                    DirtyPage {
+                        page: PageMut::pristine_with_data(fat).freeze(),
+                        diff: PageDiff::verif_from_words(c.diff),
+                        bucket,
+                    },
+                ));
+            }
+            let db = self.db.clone();
+            match db.prepare_sync(sync_seqn, &self.page_pool, dirty, &mut self.builder) {
+                Err(super::BucketExhaustion) => PrepareOut {
+                    result: Err(()),
+                    ht: Vec::new(),
+                    cache: Vec::new(),
+                },
+                Ok((ht_pages, cache_updates)) => PrepareOut {
+                    result: Ok(()),
+                    ht: ht_pages
+                        .into_iter()
+                        .map(|(pn, page)| (pn, page[..].to_vec()))
+                        .collect(),
+                    cache: cache_updates
+                        .into_iter()
+                        .map(|(id, u)| (id.encode(), u.map(|(_, b)| b.0)))
+                        .collect(),
+                },
+            }
+        }
+
+        /// The WAL blob as the builder holds it now (`as_slice`).
+        pub fn wal(&self) -> Vec<u8> {
+            self.builder.as_slice().to_vec()
+        }
+
+        /// The whole `bitvec` of the in-memory meta map.
+        pub fn meta(&self) -> Vec<u8> {
+            let meta_map = self.db.shared.meta_map.read();
+            let pages = (meta_map.len() + 4095) / 4096;
+            let mut out = Vec::with_capacity(pages * 4096);
+            for p in 0..pages {
+                out.extend_from_slice(meta_map.page_slice(p));
+            }
+            out
+        }
+
+        /// `DB::utilization().occupied`
+        pub fn occupied(&self) -> usize {
+            self.db.utilization().occupied
+        }
+
+        /// `MetaMap::full_count`
+        pub fn full_count(&self) -> usize {
+            self.db.shared.meta_map.read().full_count()
+        }
+
+        /// The shared cell of the `i`-th page of the last changeset (`None`: the page had none).
+        pub fn cell(&self, i: usize) -> Option<Option<u64>> {
+            self.cells[i].as_ref().map(|c| c.get().map(|b| b.0))
+        }
+
+        /// The lookup of `PageLoader::probe` + `PageLoad::try_complete` on the in-memory meta map:
+        /// the real `ProbeSequence`, tombstones skipped, empty / exhausted = absent, a possible
+        /// hit is accepted iff the label of the bucket's page (`label_of`) is the page id.
+        pub fn lookup(&self, page_id: &PageId, label_of: &dyn Fn(u64) -> [u8; 32]) -> Option<u64> {
+            let meta_map = self.db.shared.meta_map.read();
+            let mut seq = ProbeSequence::new(page_id, &meta_map, &self.db.shared.seed);
+            loop {
+                match seq.next(&meta_map) {
+                    ProbeResult::Tombstone(_) => continue,
+                    ProbeResult::Empty(_) | ProbeResult::Exhausted => return None,
+                    ProbeResult::PossibleHit(bucket) => {
+                        if label_of(bucket) == page_id.encode() {
+                            return Some(bucket);
+                        }
+                    }
+                }
+            }
+        }
+    }
+}
+
 fn hash_page_id(page_id: &PageId, seed: &[u8; 16]) -> u64 {
     hash_raw_page_id(page_id.encode(), seed)
 }
